@@ -401,10 +401,8 @@ func derivesFrom(v ssa.Value, src func(ssa.Value) bool, followCalls bool) bool {
 // and the closures that capture it.
 func cellStores(cell *ssa.Alloc) []ssa.Value {
 	var out []ssa.Value
-	for _, r := range *cell.Referrers() {
-		if st, ok := r.(*ssa.Store); ok && st.Addr == cell {
-			out = append(out, st.Val)
-		}
+	for _, st := range cellStoreInstrs(cell) {
+		out = append(out, st.Val)
 	}
 	return out
 }
@@ -495,4 +493,144 @@ func retValAt(ret *ssa.Return, i int) []ssa.Value {
 		return []ssa.Value{last}
 	}
 	return unspill(v)
+}
+
+// closureBinding maps a free variable of a closure to the value captured where the
+// closure is made (nil if the closure is made at more than one place).
+func closureBinding(fv *ssa.FreeVar) ssa.Value {
+	fn := fv.Parent()
+	par := fn.Parent()
+	if par == nil {
+		return nil
+	}
+	idx := -1
+	for i, q := range fn.FreeVars {
+		if q == fv {
+			idx = i
+		}
+	}
+	var out ssa.Value
+	n := 0
+	instrsOf(par, func(in ssa.Instruction) {
+		if mc, ok := in.(*ssa.MakeClosure); ok && mc.Fn == ssa.Value(fn) && idx >= 0 && idx < len(mc.Bindings) {
+			out = mc.Bindings[idx]
+			n++
+		}
+	})
+	if n != 1 {
+		return nil
+	}
+	return out
+}
+
+// cellOf: the local-variable cell (an *ssa.Alloc of the outermost function that owns it) an address denotes,
+// following free variables of closures to what they capture.
+func cellOf(addr ssa.Value) *ssa.Alloc {
+	for i := 0; i < 8; i++ {
+		switch x := addr.(type) {
+		case *ssa.Alloc:
+			return x
+		case *ssa.FreeVar:
+			b := closureBinding(x)
+			if b == nil {
+				return nil
+			}
+			addr = b
+		default:
+			return nil
+		}
+	}
+	return nil
+}
+
+// cellStoreInstrs: every store to the cell, in its function and in the closures that capture it.
+func cellStoreInstrs(al *ssa.Alloc) []*ssa.Store {
+	var out []*ssa.Store
+	var visit func(addr ssa.Value, d int)
+	visit = func(addr ssa.Value, d int) {
+		refs := addr.Referrers()
+		if refs == nil || d > 6 {
+			return
+		}
+		for _, r := range *refs {
+			switch x := r.(type) {
+			case *ssa.Store:
+				if x.Addr == addr {
+					out = append(out, x)
+				}
+			case *ssa.MakeClosure:
+				fn, _ := x.Fn.(*ssa.Function)
+				for i, b := range x.Bindings {
+					if b == addr && fn != nil && i < len(fn.FreeVars) {
+						visit(fn.FreeVars[i], d+1)
+					}
+				}
+			}
+		}
+	}
+	visit(al, 0)
+	return out
+}
+
+// derefLocal: a load of a local variable that is assigned exactly once (e.g. `nc := c.nextConn`
+// captured by a closure) is replaced by the value assigned; anything else is returned unchanged.
+func derefLocal(v ssa.Value) ssa.Value {
+	for i := 0; i < 4; i++ {
+		u, ok := v.(*ssa.UnOp)
+		if !ok || u.Op != token.MUL {
+			return v
+		}
+		al := cellOf(u.X)
+		if al == nil {
+			return v
+		}
+		st := cellStoreInstrs(al)
+		if len(st) != 1 {
+			return v
+		}
+		v = st[0].Val
+	}
+	return v
+}
+
+// zeroGlobalLoad: v loads a package variable of the module that only ever holds its zero value
+// (no store anywhere, or only stores of the zero constant).
+func zeroGlobalLoad(v ssa.Value) bool {
+	u, ok := v.(*ssa.UnOp)
+	if !ok || u.Op != token.MUL || curProg == nil {
+		return false
+	}
+	g, ok := u.X.(*ssa.Global)
+	if !ok || g.Pkg == nil || !(g.Pkg.Pkg.Path() == modPath || strings.HasPrefix(g.Pkg.Pkg.Path(), modPath+"/")) {
+		return false
+	}
+	zero := true
+	scan := func(f *ssa.Function) {
+		instrsOf(f, func(in ssa.Instruction) {
+			for _, op := range in.Operands(nil) {
+				if *op != ssa.Value(g) {
+					continue
+				}
+				switch x := in.(type) {
+				case *ssa.Store:
+					if c, ok := x.Val.(*ssa.Const); !(x.Addr == ssa.Value(g) && ok && c.Value == nil) {
+						zero = false
+					}
+				case *ssa.UnOp:
+					if x.Op != token.MUL {
+						zero = false
+					}
+				default:
+					zero = false // address escapes
+				}
+			}
+		})
+	}
+	for _, f := range curProg.Funcs {
+		scan(f)
+	}
+	if init := g.Pkg.Func("init"); init != nil {
+		scan(init)
+	}
+	return zero
 }
